@@ -20,6 +20,10 @@ ASSUMPTIONS = [
     "several columns, defined names and CSE arrays are exercised by C05/C13, not here",
     "openpyxl, networkx and the xlsx reader are not modelled: the stored-results configuration reads "
     "real .xlsx files whose cached values were injected into the sheet XML",
+    "tiny streams: the numbers are dyadic (steps 2^-30 / 2^-27 on values below 8, 2^-20 / 2^-10 on values below 2^25) "
+    "and every intermediate result has fewer than 53 significant bits, so the implementation's float arithmetic is "
+    "exact and the exact-rational machine is compared bit for bit (a wider float-exact domain than the j <= 12 of "
+    "DESIGN.md 4, for +, -, comparison, multiplication by a power of two and SUM/MIN/MAX/COUNT only)",
 ]
 
 
@@ -260,7 +264,7 @@ def run(ctx):
         "the usual history: the reference is a from-scratch compile in which the formula cells not below a written "
         "input hold their stored results; "
         "distinct = distinct (workbook, history)")
-    nwb = ctx.n(2100, 30000)
+    nwb = ctx.n(2250, 30000)
     batch = []       # (case meta, model call)
     os.makedirs(ctx.work, exist_ok=True)
     for k in range(nwb):
